@@ -63,6 +63,41 @@ def _rename(node, mapping):
     return {k: (_rename(v, mapping) if not (isinstance(k, str) and k.startswith('_')) else v) for k, v in node.items()}
 
 
+def _option_chain(it, st):
+    """An `Option`-returning helper of the form `let P1 = E1?; let P2 = E2?; ..; Some(R)` / `..; TAIL` is the expression
+    `if let Some(P1) = E1 { if let Some(P2) = E2 { TAIL } else { None } } else { None }` (the `?`s leave the helper with `None`)."""
+    out = it['sig'].get('output')
+    if not (isinstance(out, dict) and (out.get('text') or '').replace(' ', '').startswith('Option<')):
+        return None
+    body = st[:-1]
+    tail = st[-1]['expr']
+    if not body:
+        return None
+    for s_ in body:
+        if s_.get('k') != 'Local' or s_.get('else') is not None or not isinstance(s_.get('init'), dict) or s_['init'].get('k') != 'Try' or s_.get('attrs'):
+            return None
+    for x in walk_json(tail):
+        if isinstance(x, dict) and x.get('k') in ('Try', 'Return'):
+            return None
+    for s_ in body:
+        for x in walk_json(s_['init']['expr']):
+            if isinstance(x, dict) and x.get('k') in ('Try', 'Return'):
+                return None
+    l = it.get('l', 0)
+    none = {'k': 'Path', 'l': l, 'qself': None, 'path': {'global': False, 'l': l, 's': 'None', 'segs': [{'id': 'None'}]}}
+    expr = tail
+    for s_ in reversed(body):
+        pat = s_['pat']
+        while pat.get('k') == 'Type':
+            pat = pat['pat']
+        some = {'k': 'TupleStruct', 'l': l, 'qself': False, 'path': {'global': False, 'l': l, 's': 'Some', 'segs': [{'id': 'Some'}]}, 'elems': [pat]}
+        expr = {'k': 'If', 'l': s_.get('l', l), 'desugared': 'option-?',
+                'cond': {'k': 'Let', 'l': l, 'pat': some, 'expr': s_['init']['expr']},
+                'then': {'k': 'Block', 'l': l, 'stmts': [{'k': 'Expr', 'expr': expr, 'semi': False, 'l': l}]},
+                'else': {'k': 'Block', 'l': l, 'stmts': [{'k': 'Expr', 'expr': copy.deepcopy(none), 'semi': False, 'l': l}]}}
+    return expr
+
+
 def inlinable(g, with_try):
     """(params, statements, value expression) of a helper that can be substituted for a call; with_try: the call is `g(..)?`
     (the helper must end in `Ok(E)`; `return Err(..)` and `?` inside are fine); otherwise the helper must not return early or use `?`
@@ -77,6 +112,14 @@ def inlinable(g, with_try):
     if not st or st[-1]['k'] != 'Expr' or st[-1]['semi']:
         return None
     tail = st[-1]['expr']
+    oc = None if with_try else _option_chain(it, st)
+    if oc is not None:
+        params = []
+        for a in it['sig']['inputs']:
+            if a['k'] != 'Typed' or a['pat']['k'] not in ('Wild', 'Ident'):
+                return None
+            params.append(None if a['pat']['k'] == 'Wild' else a['pat']['name'])
+        return params, [], oc
     if with_try:
         if not (tail['k'] == 'Call' and tail['func']['k'] == 'Path' and tail['func']['path']['s'] == 'Ok' and len(tail['args']) == 1):
             return None
@@ -202,13 +245,346 @@ def _call_sites(crate):
     return cnt
 
 
+def _free_names(node, out):
+    for x in walk_json(node):
+        if isinstance(x, dict):
+            if x.get('k') == 'Path' and 'path' in x and len(x['path'].get('segs', [])) == 1 and 'qself' in x and not x['path'].get('global'):
+                out.add(x['path']['s'])
+            elif x.get('t') == 'h' and 's' in x:
+                out.add(x['s'])
+
+
+def _binder_count(node, name):
+    n = 0
+    for x in walk_json(node):
+        if isinstance(x, dict) and x.get('k') == 'Ident' and x.get('name') == name and 'by_ref' in x:
+            n += 1
+    return n
+
+
+def _pat_binders(p):
+    out = set()
+    _binder_names(p, out)
+    return out
+
+
+def _shadowed_call(node, name, free, shadowed):
+    """is there a call of `name` in a region where one of the names in `free` has been re-bound?"""
+    if isinstance(node, list):
+        # a statement list: `let` extends the shadowed set for what follows
+        sh = shadowed
+        for x in node:
+            if isinstance(x, dict) and x.get('k') == 'Local':
+                if _shadowed_call(x.get('init'), name, free, sh) or _shadowed_call(x.get('else'), name, free, sh):
+                    return True
+                sh = sh | (_pat_binders(x.get('pat')) & free)
+            elif _shadowed_call(x, name, free, sh):
+                return True
+        return False
+    if not isinstance(node, dict):
+        return False
+    k = node.get('k')
+    if k == 'Call' and isinstance(node.get('func'), dict) and node['func'].get('k') == 'Path' and node['func']['path'].get('s') == name:
+        if shadowed:
+            return True
+    if k == 'Block' and isinstance(node.get('stmts'), list):
+        return _shadowed_call(node['stmts'], name, free, shadowed)
+    if k == 'If':
+        c = node.get('cond')
+        sh_then = shadowed
+        if isinstance(c, dict) and c.get('k') == 'Let':
+            if _shadowed_call(c.get('expr'), name, free, shadowed):
+                return True
+            sh_then = shadowed | (_pat_binders(c.get('pat')) & free)
+        elif _shadowed_call(c, name, free, shadowed):
+            return True
+        return _shadowed_call(node.get('then'), name, free, sh_then) or _shadowed_call(node.get('else'), name, free, shadowed)
+    if k == 'Match':
+        if _shadowed_call(node.get('expr'), name, free, shadowed):
+            return True
+        for a in node.get('arms') or []:
+            sh = shadowed | (_pat_binders(a.get('pat')) & free)
+            if _shadowed_call(a.get('guard'), name, free, sh) or _shadowed_call(a.get('body'), name, free, sh):
+                return True
+        return False
+    if k in ('ForLoop', 'For'):
+        if _shadowed_call(node.get('iter') or node.get('expr'), name, free, shadowed):
+            return True
+        return _shadowed_call(node.get('body'), name, free, shadowed | (_pat_binders(node.get('pat')) & free))
+    if k == 'While':
+        c = node.get('cond')
+        sh = shadowed
+        if isinstance(c, dict) and c.get('k') == 'Let':
+            sh = shadowed | (_pat_binders(c.get('pat')) & free)
+        return _shadowed_call(c, name, free, shadowed) or _shadowed_call(node.get('body'), name, free, sh)
+    if k == 'Closure':
+        sh = shadowed
+        for pp in node.get('params') or []:
+            sh = sh | (_pat_binders(pp) & free)
+        return _shadowed_call(node.get('body'), name, free, sh)
+    for kk, v in node.items():
+        if isinstance(kk, str) and kk.startswith('_'):
+            continue
+        if isinstance(v, (dict, list)) and _shadowed_call(v, name, free, shadowed):
+            return True
+    return False
+
+
+def inline_closures(crate):
+    """N14: a local, immutable, non-`move` closure that is only ever *called* (`let f = |a, b| BODY; .. f(x, y) ..`) is a local
+    function: each call is replaced by `{ let a = x; let b = y; BODY }` (parameters that receive a plain variable are renamed to
+    it).  Only closures whose body neither returns nor uses `?` (both would leave the closure, not the function) and whose captured
+    variables are bound exactly once in the enclosing function (so a call site sees the same variables as the definition)."""
+    n = 0
+    for f in crate.fns:
+        blk = f.item.get('block')
+        if not isinstance(blk, dict):
+            continue
+        cands = []
+        for x in walk_json(blk):
+            if isinstance(x, dict) and x.get('k') == 'Block' and isinstance(x.get('stmts'), list):
+                for st in x['stmts']:
+                    if st.get('k') == 'Local' and isinstance(st.get('init'), dict) and st['init'].get('k') == 'Closure' and st.get('else') is None:
+                        p = st['pat']
+                        if p.get('k') == 'Ident' and not p.get('mut') and not p.get('by_ref') and not st['init'].get('move') and not st['init'].get('capture'):
+                            cands.append((x, st))
+        for holder, st in cands:
+            name = st['pat']['name']
+            clo = st['init']
+            params = []
+            okp = True
+            for pp in clo['params']:
+                q = pp
+                while q.get('k') in ('Type',):
+                    q = q['pat']
+                if q.get('k') != 'Ident' or q.get('by_ref') or q.get('sub'):
+                    okp = False
+                    break
+                params.append(q['name'])
+            if not okp:
+                continue
+            body = clo['body']
+            if any(isinstance(x, dict) and x.get('k') in ('Return', 'Try', 'Await', 'Yield') for x in walk_json(body)):
+                continue
+            calls = [x for x in walk_json(blk) if isinstance(x, dict) and x.get('k') == 'Call' and isinstance(x.get('func'), dict)
+                     and x['func'].get('k') == 'Path' and x['func']['path'].get('s') == name and len(x['args']) == len(params)]
+            if not calls or _count_uses(blk, name) != len(calls) or _binder_count(blk, name) != 1:
+                continue
+            free = set()
+            _free_names(body, free)
+            free -= set(params)
+            inner = set()
+            _binder_names(body, inner)
+            # every call must see the captured variables the definition saw: none of them re-bound on the way to a call
+            after = holder['stmts'][holder['stmts'].index(st) + 1:]
+            if _shadowed_call(after, name, set(v for v in free if v not in inner), frozenset()):
+                continue
+            if any(c_ is not x_ for c_, x_ in zip(calls, calls)) or len([x for x in walk_json(after) if isinstance(x, dict) and x.get('k') == 'Call'
+                   and isinstance(x.get('func'), dict) and x['func'].get('k') == 'Path' and x['func']['path'].get('s') == name]) != len(calls):
+                continue      # a call outside the rest of the defining block
+            l = st.get('l', 0)
+            for c in calls:
+                mapping = {}
+                lets = []
+                for p_, a in zip(params, c['args']):
+                    xx = _strip_refs(a)
+                    if xx['k'] == 'Path' and len(xx['path']['segs']) == 1 and xx['path']['s'] not in inner:
+                        if xx['path']['s'] != p_:
+                            mapping[p_] = xx['path']['s']
+                    else:
+                        lets.append({'k': 'Local', 'pat': {'k': 'Ident', 'name': p_, 'by_ref': False, 'mut': False, 'sub': None, 'l': l}, 'ty': None,
+                                     'init': a, 'else': None, 'attrs': [], 'l': c.get('l', l)})
+                b2 = copy.deepcopy(_rename(body, mapping))
+                new = {'k': 'Block', 'l': c.get('l', l), 'inlined_closure': name,
+                       'stmts': lets + [{'k': 'Expr', 'expr': b2, 'semi': False, 'l': c.get('l', l)}]}
+                keep = {k_: v_ for k_, v_ in c.items() if isinstance(k_, str) and k_.startswith('_')}
+                c.clear()
+                c.update(new)
+                c.update(keep)
+                n += 1
+            holder['stmts'] = [s_ for s_ in holder['stmts'] if s_ is not st]
+    return n
+
+
+def _replace_derefs(node, names):
+    """`*name` -> `name` for the given names (a `&mut T` parameter that becomes a captured variable)"""
+    if isinstance(node, list):
+        return [_replace_derefs(x, names) for x in node]
+    if not isinstance(node, dict):
+        return node
+    if node.get('k') == 'Unary' and node.get('op') == '*' and isinstance(node.get('expr'), dict) and node['expr'].get('k') == 'Path' \
+            and len(node['expr']['path'].get('segs', [])) == 1 and node['expr']['path']['s'] in names:
+        return node['expr']
+    return {k: (_replace_derefs(v, names) if not (isinstance(k, str) and k.startswith('_')) else v) for k, v in node.items()}
+
+
+def methods_to_closures(crate):
+    """N16: a private `&self` method of the same impl that is called exactly once, as `self.m(x, &mut a, &mut b)`, with every
+    `&mut` parameter receiving a local variable, is the closure `let mut m = |x| { .. a .. b .. }` it was extracted from (the parameter
+    handler of an attribute parser): the call becomes `m(x)` and the closure is declared just before the loop (or statement) that
+    contains the call.  `return` keeps its meaning (it leaves the method / the closure), `*a` becomes `a`."""
+    n = 0
+    for f in list(crate.fns):
+        blk = f.item.get('block')
+        if not isinstance(blk, dict) or not f.self_ty:
+            continue
+        calls = [x for x in walk_json(blk) if isinstance(x, dict) and x.get('k') == 'MethodCall' and isinstance(x.get('recv'), dict)
+                 and x['recv'].get('k') == 'Path' and x['recv']['path'].get('s') == 'self']
+        for c in calls:
+            gs = [g for g in crate.fns if g is not f and g.name == c['method'] and g.self_ty == f.self_ty and g.module is f.module and not g.item.get('vis')]
+            if len(gs) != 1:
+                continue
+            g = gs[0]
+            ins = g.item['sig']['inputs']
+            if not ins or ins[0].get('k') != 'Self' or not ins[0].get('ref') or ins[0].get('mut') or len(ins) - 1 != len(c['args']):
+                continue
+            # the only call of g in the crate
+            total = 0
+            for h in crate.fns:
+                for x in walk_json(h.item.get('block')):
+                    if isinstance(x, dict) and x.get('k') == 'MethodCall' and x.get('method') == g.name:
+                        total += 1
+            if total != 1:
+                continue
+            mapping, cparams, cargs, derefs = {}, [], [], set()
+            ok = True
+            for inp, a in zip(ins[1:], c['args']):
+                if inp.get('k') != 'Typed' or inp['pat'].get('k') != 'Ident':
+                    ok = False
+                    break
+                pname = inp['pat']['name']
+                ty = inp['ty']
+                if ty.get('k') == 'Ref' and ty.get('mut'):
+                    if a.get('k') == 'Ref' and a.get('mut') and a['expr'].get('k') == 'Path' and len(a['expr']['path']['segs']) == 1:
+                        mapping[pname] = a['expr']['path']['s']
+                        derefs.add(pname)
+                    else:
+                        ok = False
+                        break
+                else:
+                    cparams.append({'k': 'Type', 'l': inp['pat'].get('l', 0), 'pat': dict(inp['pat']), 'ty': ty})
+                    cargs.append(a)
+            if not ok or not derefs:
+                continue
+            inner = set()
+            _binder_names(g.item['block'], inner)
+            if inner & set(mapping.values()):
+                continue
+            body = copy.deepcopy(g.item['block'])
+            body = _replace_derefs(body, derefs)
+            body = _rename(body, mapping)
+            cname = '__' + g.name
+            l = c.get('l', 0)
+            clo = {'k': 'Closure', 'l': g.item.get('l', l), 'move': False, 'params': cparams, 'body': body, 'from_method': g.qname}
+            local = {'k': 'Local', 'l': l, 'attrs': [], 'else': None, 'ty': None, 'init': clo,
+                     'pat': {'k': 'Ident', 'name': cname, 'by_ref': False, 'mut': True, 'sub': None, 'l': l}}
+            # where: before the statement of the innermost block that (transitively) contains the call and is a loop, else the statement itself
+            place = _placement(blk, c)
+            if place is None:
+                continue
+            holder, idx = place
+            keep = {k_: v_ for k_, v_ in c.items() if isinstance(k_, str) and k_.startswith('_')}
+            c.clear()
+            c.update({'k': 'Call', 'l': l, 'func': {'k': 'Path', 'l': l, 'qself': None, 'path': {'global': False, 'l': l, 's': cname, 'segs': [{'id': cname}]}},
+                      'args': cargs})
+            c.update(keep)
+            holder['stmts'].insert(idx, local)
+            crate.inlined_into[id(g)] = crate.inlined_into.get(id(g), 0) + 1
+            crate.method_closures = getattr(crate, 'method_closures', set()) | {id(g)}
+            n += 1
+    return n
+
+
+def _contains(node, target):
+    for x in walk_json(node):
+        if x is target:
+            return True
+    return False
+
+
+def _placement(blk, call):
+    """(block, index): the statement list position just before the outermost loop statement that contains the call within the
+    innermost block holding all of that loop; falls back to the statement containing the call"""
+    best = None
+
+    def go(b):
+        nonlocal best
+        for i, st in enumerate(b.get('stmts') or []):
+            if _contains(st, call):
+                e = st.get('expr') if st.get('k') == 'Expr' else None
+                if isinstance(e, dict) and e.get('k') in ('For', 'While', 'Loop', 'ForLoop'):
+                    best = (b, i)
+                    return
+                if best is None:
+                    best = (b, i)
+                # descend into nested blocks of this statement
+                for x in walk_json(st):
+                    if isinstance(x, dict) and x.get('k') == 'Block' and x is not b and _contains(x, call):
+                        best = None
+                        go(x)
+                        return
+                return
+    go(blk)
+    return best
+
+
+def fold_format_literals(crate):
+    """`format_ident!("{}{}", "_s_", x)` (a literal argument, typically after a helper `fn binder(prefix: &str, ..)` has been inlined)
+    is `format_ident!("_s_{}", x)`: positional `{}` placeholders that receive a string literal are filled in"""
+    import re
+    n = 0
+    for f in crate.fns:
+        for x in walk_json(f.item.get('block')):
+            if not (isinstance(x, dict) and x.get('k') == 'Macro' and isinstance(x.get('mac'), dict)):
+                continue
+            m = x['mac']
+            if m.get('name', '').split('::')[-1] not in ('format_ident', 'format') or not m.get('args'):
+                continue
+            a0 = m['args'][0]
+            if a0.get('k') != 'Lit' or a0['lit'].get('k') != 'Str':
+                continue
+            fmt = a0['lit']['v']
+            parts = re.split(r'(\{\{|\}\}|\{[^}]*\})', fmt)
+            holes = [p_ for p_ in parts if p_.startswith('{') and p_ not in ('{{', '}}')]
+            if not holes or any(h != '{}' for h in holes) or len(holes) != len(m['args']) - 1:
+                continue
+            rest = m['args'][1:]
+            lits = []
+            for a in rest:
+                y = _strip_refs(a)
+                lits.append(y['lit']['v'] if y.get('k') == 'Lit' and y['lit'].get('k') == 'Str' and isinstance(y['lit'].get('v'), str) else None)
+            if not any(v is not None for v in lits):
+                continue
+            out, keep, i = [], [], 0
+            for p_ in parts:
+                if p_ == '{}':
+                    if lits[i] is not None:
+                        out.append(lits[i].replace('{', '{{').replace('}', '}}'))
+                    else:
+                        out.append('{}')
+                        keep.append(rest[i])
+                    i += 1
+                else:
+                    out.append(p_)
+            a0 = copy.deepcopy(a0)
+            a0['lit']['v'] = ''.join(out)
+            m['args'] = [a0] + keep
+            m['folded'] = True
+            n += 1
+    return n
+
+
 def inline_helpers(crate):
+    crate.inlined_into = getattr(crate, 'inlined_into', {})
+    n00 = methods_to_closures(crate)
+    n0 = inline_closures(crate)
     before = _call_sites(crate)
-    crate.inlined_into = {}      # id(helper) -> number of inlined call sites
+    crate.inlined_into = dict(getattr(crate, 'inlined_into', {}))      # id(helper) -> number of inlined call sites
     n = 0
     for f in list(crate.fns):
         n += _inline_in(crate, f, f.item.get('block'), 0)
-    crate.fully_inlined = set(g for g, k in crate.inlined_into.items() if k >= before.get(g, 0) and k > 0)
+    fold_format_literals(crate)
+    crate.fully_inlined = set(g for g, k in crate.inlined_into.items() if k >= before.get(g, 0) and k > 0) | getattr(crate, 'method_closures', set())
     return n
 
 
